@@ -211,6 +211,7 @@ fn server_bases(tier: Tier) -> Vec<SCfg> {
                             via_serde: false,
                             start_age_ms: 0,
                             limit_via_incoming: false,
+        via_key_limit: false,
                         });
                     }
                 }
